@@ -116,7 +116,7 @@ class Ctx:
                 open(os.path.join(d, name), "w").write(content)
         if workers is None:
             workers = os.cpu_count() or 4
-        java = ["java", "-XX:+UseParallelGC", "-Xss64m"]
+        java = ["java", "-XX:+UseParallelGC", "-Xss512m"]
         java.append("-Xmx%s" % (heap or "8g"))
         if dfs:
             java.append("-Dtlc2.tool.queue.IStateQueue=StateDeque")
